@@ -100,6 +100,19 @@ class PDA:
         self._final_states = set(self._final_states)
         for state in self._final_states:
             self._states.add(state)
+        # The states and the symbols used by the transition function given
+        # to the constructor belong to the PDA
+        for key, outs in self._transition_function.to_dict().items():
+            s_from, input_symbol, stack_from = key
+            self._states.add(s_from)
+            if input_symbol != Epsilon():
+                self._input_symbols.add(input_symbol)
+            self._stack_alphabet.add(stack_from)
+            for s_to, stack_to in outs:
+                self._states.add(s_to)
+                for stack_symbol in stack_to:
+                    if stack_symbol != Epsilon():
+                        self._stack_alphabet.add(stack_symbol)
         self._cfg_variable_converter = None
 
     def set_start_state(self, start_state: Any):
